@@ -1051,7 +1051,8 @@ class FileDomain(NormDomain):
             ker = args[1] if isinstance(args[1], FArr) else (self.from_nested(args[1], node) if isinstance(args[1], Tup) else None)
             mode = kwargs.get('mode', Const('reflect'))
             if isinstance(ker, FArr) and ker.ndim == 2 and isinstance(mode, Const) and mode.v in ('reflect', 'constant', 'nearest', 'mirror', 'wrap') \
-                    and not (set(kwargs) - {'mode', 'cval'}) and len(args) == 2:
+                    and not (set(kwargs) - {'mode', 'cval', 'output'}) and len(args) == 2 \
+                    and ('output' not in kwargs or (isinstance(kwargs['output'], FArr) and kwargs['output'].shape == args[0].shape)):
                 img = args[0]
                 H, W = img.shape
                 kh, kw = ker.shape
@@ -1089,8 +1090,30 @@ class FileDomain(NormDomain):
                                 x = cval if (ii is None or jj is None) else img.boxes[ii * W + jj].v
                                 acc = self.cell_binop(ast.Add(), acc, self.cell_binop(ast.Mult(), kv, x, node), node)
                         out.append(acc)
+                if 'output' in kwargs:
+                    # written into the array (or view) that was handed in
+                    dst = kwargs['output']
+                    for b, x in zip(dst.boxes, out):
+                        b.v = x
+                    return dst
                 return FArr.of((H, W), out)
             return Unknown('ndimage.%s with arguments that are not followed' % dotted.rsplit('.', 1)[-1])
+        if dotted == 'numpy.einsum' and len(args) >= 2 and isinstance(args[0], FArr) and isinstance(args[1], (Tup, FArr)):
+            # the sublist form einsum(op0, axes0, op1, axes1, ..., [output axes]) said as a subscript string
+            def axes_of(v):
+                cells = v.values() if isinstance(v, FArr) else v.items
+                ii = [self._int(c) for c in cells]
+                return None if None in ii or any(not 0 <= i < 26 for i in ii) else ''.join('abcdefghijklmnopqrstuvwxyz'[i] for i in ii)
+            ops_, subs_, rest = [], [], list(args)
+            while len(rest) >= 2 and isinstance(rest[0], FArr) and isinstance(rest[1], (Tup, FArr)):
+                ops_.append(rest[0])
+                subs_.append(axes_of(rest[1]))
+                rest = rest[2:]
+            out_axes = axes_of(rest[0]) if len(rest) == 1 and isinstance(rest[0], (Tup, FArr)) else ('' if rest else None)
+            if None not in subs_ and (not rest or (len(rest) == 1 and out_axes is not None)):
+                spec = ','.join(subs_) + (('->' + out_axes) if rest else '')
+                return self.call_ext('numpy.einsum', [Const(spec)] + ops_, kwargs, node)
+            return Unknown('einsum in the sublist form with axes that are not followed')
         if dotted == 'numpy.einsum' and len(args) >= 2 and isinstance(args[0], Const) and isinstance(args[0].v, str) and all(isinstance(a, FArr) for a in args[1:]) \
                 and not (set(kwargs) - {'optimize'}):
             spec = args[0].v.replace(' ', '')
